@@ -41,7 +41,29 @@ pub fn code_kind(c: u32) -> io::ErrorKind {
 pub enum Ev {
     Deliver(usize),
     Interrupted,
+    /// a hard error whose payload has a cause of its own (`source()` of the io::Error is Some)
     Fail(u32),
+    /// a hard error without payload (`io::Error::from(kind)`)
+    FailPlain(u32),
+}
+
+/// error payload with a nested cause: the library must still expose the reader's io::Error (not
+/// the cause) as the source of its IoError value
+#[derive(Debug)]
+pub struct Transport {
+    cause: std::fmt::Error,
+}
+
+impl std::fmt::Display for Transport {
+    fn fmt(&self, f: &mut std::fmt::Formatter<'_>) -> std::fmt::Result {
+        write!(f, "injected transport failure")
+    }
+}
+
+impl std::error::Error for Transport {
+    fn source(&self) -> Option<&(dyn std::error::Error + 'static)> {
+        Some(&self.cause)
+    }
 }
 
 pub fn parse_events(s: &str) -> Option<Vec<Ev>> {
@@ -56,6 +78,8 @@ pub fn parse_events(s: &str) -> Option<Vec<Ev>> {
             v.push(Ev::Deliver(n.parse().ok()?));
         } else if let Some(n) = tok.strip_prefix('f') {
             v.push(Ev::Fail(n.parse().ok()?));
+        } else if let Some(n) = tok.strip_prefix('F') {
+            v.push(Ev::FailPlain(n.parse().ok()?));
         } else {
             return None;
         }
@@ -89,10 +113,46 @@ impl Read for SchedReader {
             None => usize::MAX,
             Some(Ev::Deliver(n)) => n.max(1),
             Some(Ev::Interrupted) => return Err(io::Error::from(io::ErrorKind::Interrupted)),
-            Some(Ev::Fail(c)) => return Err(io::Error::new(code_kind(c), "injected")),
+            Some(Ev::Fail(c)) => {
+                return Err(io::Error::new(
+                    code_kind(c),
+                    Transport {
+                        cause: std::fmt::Error,
+                    },
+                ))
+            }
+            Some(Ev::FailPlain(c)) => return Err(io::Error::from(code_kind(c))),
         };
         let avail = self.data.len() - self.pos;
         let n = buf.len().min(limit).min(avail);
+        buf[..n].copy_from_slice(&self.data[self.pos..self.pos + n]);
+        self.pos += n;
+        Ok(n)
+    }
+}
+
+/// A reader that delivers the first `limit` bytes normally (however many calls that takes) and
+/// then fails every call with a hard error.
+pub struct FailAfter {
+    data: Vec<u8>,
+    pos: usize,
+    limit: usize,
+}
+
+impl Read for FailAfter {
+    fn read(&mut self, buf: &mut [u8]) -> io::Result<usize> {
+        if buf.is_empty() {
+            return Ok(0);
+        }
+        if self.pos >= self.limit {
+            return Err(io::Error::new(
+                io::ErrorKind::Other,
+                Transport {
+                    cause: std::fmt::Error,
+                },
+            ));
+        }
+        let n = buf.len().min(self.limit - self.pos).min(self.data.len() - self.pos);
         buf[..n].copy_from_slice(&self.data[self.pos..self.pos + n]);
         self.pos += n;
         Ok(n)
@@ -194,9 +254,15 @@ fn observe_all(ase: &AsepriteFile, len: usize) -> Vec<String> {
 /// observe it; prints B's observation and a `differs` line when it is not the observation of B
 /// made on a fresh thread with no history.
 pub fn handle_history(parts: &[&str], out: &mut impl Write) {
-    // an optional fifth word `keep`: sprite A stays alive while B is loaded and observed
+    // an optional fifth word `keep`: sprite A stays alive while B is loaded and observed;
+    // `fail:<n>`: A is read through a reader that fails with a hard error after n bytes
     let keep = parts.len() == 5 && parts[4] == "keep";
-    if parts.len() != 4 && !keep {
+    let fail_at: Option<usize> = if parts.len() == 5 {
+        parts[4].strip_prefix("fail:").and_then(|n| n.parse().ok())
+    } else {
+        None
+    };
+    if parts.len() != 4 && !keep && fail_at.is_none() {
         writeln!(out, "bad-op").unwrap();
         return;
     }
@@ -218,7 +284,16 @@ pub fn handle_history(parts: &[&str], out: &mut impl Write) {
             let after = std::thread::spawn(move || {
                 crate::guard(|| {
                     let mut alive = Vec::new();
-                    for _ in 0..2 {
+                    if let Some(n) = fail_at {
+                        for _ in 0..2 {
+                            let _ = AsepriteFile::read(FailAfter {
+                                data: a.clone(),
+                                pos: 0,
+                                limit: n.min(a.len()),
+                            });
+                        }
+                    }
+                    for _ in 0..(if fail_at.is_some() { 0 } else { 2 }) {
                         if let Ok(first) = AsepriteFile::read(io::Cursor::new(&a)) {
                             let _ = observe_all(&first, a.len());
                             if keep {
